@@ -133,3 +133,45 @@ fn c12_session_error_mapping() {
     kani::cover!(k == 4, "timeout");
     kani::cover!(k == 0, "io");
 }
+
+//@ props: C20 C13
+//@ timeout: 900
+//@ fns: client::task::ClientLoop::change_setting, ClientLoop::new, ClientLoop::is_enabled
+//@ bounds: every decode level (36 x 36), every enabled state, all three settings
+//@ outside: that a level change never reorders an outstanding transaction (queue ordering inside the tokio task)
+/// a run-time setting changes exactly the field it names: the decode level never touches the enabled flag, the
+/// transaction id or the time-out counter; enable/disable never touch the level
+#[kani::proof]
+#[kani::unwind(6)]
+fn c20_client_change_setting() {
+    let before = any_decode_level();
+    let after = any_decode_level();
+    let (tx, rx) = tokio::sync::mpsc::channel::<crate::client::message::Command>(1);
+    let mut c = ClientLoop::new(rx.into(), FrameWriter::tcp(), FramedReader::tcp(), before, None);
+    assert!(!c.is_enabled(), "[C13] a channel starts disabled");
+    let en: bool = kani::any();
+    c.enabled = en;
+    let txid: u16 = kani::any();
+    c.tx_id = TxId::new(txid);
+    let which: u8 = kani::any();
+    match which {
+        0 => {
+            c.change_setting(Setting::DecodeLevel(after));
+            assert!(c.decode == after, "[C20] the new level takes effect");
+            assert!(c.enabled == en, "[C20] changing the level does not enable/disable the channel");
+        }
+        1 => {
+            c.change_setting(Setting::Enable);
+            assert!(c.enabled && c.decode == before, "[C13] enable sets the flag only");
+        }
+        _ => {
+            c.change_setting(Setting::Disable);
+            assert!(!c.enabled && c.decode == before, "[C13] disable clears the flag only");
+        }
+    }
+    assert!(c.tx_id.to_u16() == txid, "[C20] the transaction id sequence is not disturbed");
+    assert!(matches!(c.timeout_counter.state, TimeoutCounterState::Disabled), "[C20] the time-out counter is not disturbed");
+    kani::cover!(which == 0 && before != after, "level changed");
+    std::mem::forget(c);
+    std::mem::forget(tx);
+}
